@@ -1,5 +1,5 @@
 # replay of a bounded stand-in violation (C11): re-run native/c11_compilers.py
 import sys
-print("passive n=6 modes=[0, 5, 2] gates=[('Rgate', (2,)), ('Fouriergate', (5,)), ('Rgate', (5,)), ('BSgate', (2, 5)), ('BSgate', (0, 5)), ('Rgate', (2,)), ('BSgate', (5, 2)), ('MZgate', (0, 5)), ('BSgate', (5, 2)), ('BSgate', (2, 5)), ('BSgate', (2, 0)), ('Rgate', (2,)), ('Rgate', (0,)), ('Rgate', (2,)), ('LossChannel', (0,))]: compile raised CircuitError: The operation Fouriergate cannot be used with the compiler 'passive'.")
+print("gaussian_merge n=4 gates=[('BSgate', (1, 2)), ('BSgate', (1, 0)), ('S2gate', (1, 2)), ('Vgate', (2,)), ('Rgate', (2,)), ('Rgate', (2,)), ('S2gate', (1, 2)), ('CKgate', (0, 3)), ('Rgate', (3,)), ('MZgate', (0, 2)), ('BSgate', (3, 0)), ('Vgate', (2,)), ('Sgate', (1,)), ('Dgate', (3,)), ('Sgate', (0,))]: with the opaque gates interpreted as fixed unitaries the compiled program [('GaussianTransform', [0, 1, 2]), ('CKgate', [0, 3]), ('Vgate', [2]), ('Vgate', [2]), ('GaussianTransform', [0, 1, 2, 3]), ('Dgate', [3]), ('MeasureFock', [0, 1, 2, 3])] computes something else (max difference 1.87)")
 print('REPLAY-VIOLATION')
 sys.exit(1)
